@@ -194,6 +194,7 @@ func (x *Exec) frameObligations(fr *Frame, c *Contract, out *State, env *Env) {
 	oenv := *env
 	oenv.cur = entry
 	wholeHavoc := false
+	exempt := map[string]bool{}
 	for _, a := range c.Assigns {
 		e, err := parseCExpr(a)
 		if err != nil {
@@ -217,6 +218,17 @@ func (x *Exec) frameObligations(fr *Frame, c *Contract, out *State, env *Env) {
 						cur := x.heapGet(allowed, k, mt)
 						outArr := x.heapGet(out, k, mt)
 						x.heapSet(allowed, k, mt, "(store "+cur+" "+v.S+" (select "+outArr+" "+v.S+"))")
+					}
+					continue
+				case "anyobj", "anyelems":
+					t, ok := (&oenv).tryType(call.Args[0])
+					if !ok {
+						panic(contractError(fmt.Sprintf("assigns %s: unknown type", a)))
+					}
+					if id.Name == "anyobj" {
+						exempt[heapKeyObj(t)] = true
+					} else {
+						exempt[heapKeySlice(t)] = true
 					}
 					continue
 				case "all":
@@ -249,7 +261,7 @@ func (x *Exec) frameObligations(fr *Frame, c *Contract, out *State, env *Env) {
 		t := x.s.heapT[k]
 		o := x.heapGet(out, k, t)
 		e := x.heapGet(entry, k, t)
-		if o == e {
+		if o == e || exempt[k] {
 			continue
 		}
 		a := x.heapGet(allowed, k, t)
@@ -258,7 +270,7 @@ func (x *Exec) frameObligations(fr *Frame, c *Contract, out *State, env *Env) {
 			f = "(= " + o + " " + a + ")"
 		} else {
 			// objects allocated during the call are not part of the caller-visible frame
-			f = fmt.Sprintf("(forall ((fr! Int)) (! (=> (and (>= fr! 0) (<= fr! %s)) (= (select %s fr!) (select %s fr!))) :pattern ((select %s fr!))))", entry.alloc, o, a, o)
+			f = fmt.Sprintf("(forall ((fr! Int)) (=> (and (>= fr! 0) (<= fr! %s)) (= (select %s fr!) (select %s fr!))))", entry.alloc, o, a)
 		}
 		x.addObl(&Obligation{Name: fmt.Sprintf("%s#frame.%s", fname, sanitize(shortHeapKey(k))), Kind: "frame", Func: fname, Guard: out.guard, Formula: f,
 			Src: "only the assigns clause's places change in " + shortHeapKey(k)})
